@@ -211,11 +211,12 @@ func c19Exec(cs c19Case) (string, string, string) {
 			perAddr = 2
 		}
 		cnt := map[string]int{}
-		for _, x := range w.S.RoundRobins()[r].backends {
-			cnt[x.GetAddress()]++
+		rot, rotOK := wbRotation(w.S.RoundRobins()[r])
+		for _, a := range rot.Members {
+			cnt[a]++
 		}
 		for _, a := range exp {
-			if cnt[a] != perAddr {
+			if rotOK && cnt[a] != perAddr {
 				return "rotation-member-multiplicity", fmt.Sprintf("%s: %s is in the rotation %d times (expected %d): rotation %s", desc, a, cnt[a], perAddr, c19Rot(w, r))
 			}
 		}
@@ -240,12 +241,8 @@ func c19Exec(cs c19Case) (string, string, string) {
 		lst := lsts[0]
 		// (2) the proxy's attribution index
 		p := w.S.Proxies()[0]
-		var pk []string
-		for k := range p.backends {
-			pk = append(pk, k)
-		}
-		sort.Strings(pk)
-		if strings.Join(pk, ",") != strings.Join(exp, ",") {
+		pk, pkOK := wbProxyBackends(p)
+		if pkOK && strings.Join(pk, ",") != strings.Join(exp, ",") {
 			return "attribution-index-differs", fmt.Sprintf("%s: resolved addresses %v, the proxy recognises %v as backend sources", desc, exp, pk)
 		}
 		// (3) behavioural attribution: a response from address x pins a dialog iff x is a current backend
@@ -263,7 +260,8 @@ func c19Exec(cs c19Case) (string, string, string) {
 					distinct := map[string]bool{}
 					// one whole cycle of the rotation as held (at least len(exp)+1 probes): an unbound dialog then
 					// reaches every address of the rotation
-					nprobe := maxInt(len(exp)+1, len(w.S.RoundRobins()[0].backends))
+					rot0, _ := wbRotation(w.S.RoundRobins()[0])
+					nprobe := maxInt(len(exp)+1, len(rot0.Members))
 					for k := 0; k < nprobe; k++ {
 						seq++
 						m := MsgSpec{Method: "INFO", RURI: "sip:bob@svc.example.com", Vias: []string{fmt.Sprintf("SIP/2.0/UDP %s;branch=z9hG4bKi%d", ua, seq)}, From: "<sip:a@ua.example.net>;tag=fa", To: "<sip:bob@svc.example.com>;tag=ta", CallID: cid, CSeq: fmt.Sprintf("%d INFO", seq)}.Build()
@@ -359,24 +357,30 @@ func c19Exec(cs c19Case) (string, string, string) {
 	// state key (taken before the probes, which advance the rotation): resolver entries, rotation, scripted outcome
 	var b strings.Builder
 	for h := 0; h < cs.NHosts; h++ {
-		e := dynamicHostResolver.hostIPs[c19Names[h]]
-		if e == nil {
+		addrs, f, registered, ok := wbResolverEntry(dynamicHostResolver, c19Names[h])
+		if !ok {
+			fmt.Fprintf(&b, "h%d:wb:%s/cur=%v|", h, wbDump(dynamicHostResolver), ref.cur[h])
+			continue
+		}
+		if !registered {
 			// the name is not (or no longer) registered with the resolver: part of the state, judged by the probes
 			fmt.Fprintf(&b, "h%d:unregistered/cur=%v|", h, ref.cur[h])
 			continue
 		}
-		f := e.failed
-		if len(e.addrs) == 0 {
+		if len(addrs) == 0 {
 			f = 0 // the failure count only matters while addresses are held
 		}
-		fmt.Fprintf(&b, "h%d:%v/%d/cur=%v|", h, e.addrs, f, ref.cur[h])
+		if addrs == nil {
+			addrs = []string{}
+		}
+		fmt.Fprintf(&b, "h%d:%v/%d/cur=%v|", h, addrs, f, ref.cur[h])
 	}
 	for _, rr := range w.S.RoundRobins() {
-		var l []string
-		for _, x := range rr.backends {
-			l = append(l, x.GetAddress())
+		if rot, ok := wbRotation(rr); ok {
+			fmt.Fprintf(&b, "rr=%v/%d", rot.Members, rot.Index%maxInt(len(rot.Members), 1))
+		} else {
+			b.WriteString("wb:" + wbDump(rr))
 		}
-		fmt.Fprintf(&b, "rr=%v/%d", l, rr.index%maxInt(len(l), 1))
 	}
 	// the oracle is evaluated on the state reached by the last step (earlier prefixes were
 	// checked when they were explored)
@@ -389,8 +393,9 @@ func c19Exec(cs c19Case) (string, string, string) {
 // c19Rot describes the rotation as the proxy holds it (transport and address of every member).
 func c19Rot(w *RelayWorld, r int) string {
 	var l []string
-	for _, x := range w.S.RoundRobins()[r].backends {
-		l = append(l, strings.TrimPrefix(fmt.Sprintf("%T", x), "*main.")+"@"+x.GetAddress())
+	rot, _ := wbRotation(w.S.RoundRobins()[r])
+	for i, a := range rot.Members {
+		l = append(l, rot.Types[i]+"@"+a)
 	}
 	return fmt.Sprint(l)
 }
